@@ -154,6 +154,9 @@ def clause_a(repo, chk):
         ("%s::FitFractions.get_frac_grad" % FF, {"fit_frac"}, {"g_fit_frac"}, True),
     ]
     interpreted = frac_grad_by_interpretation(repo, chk)
+    from .c03_order import fitfraction_functions_by_interpretation
+
+    interpreted = set(interpreted) | fitfraction_functions_by_interpretation(repo, chk)
     for key, fracs, grads, has_grad in impls:
         fn = repo.fn(key)
         if key in interpreted:
@@ -225,8 +228,8 @@ def clause_a(repo, chk):
         chk.instance("A-index", "%s visits %d index pairs for n=4 (%s)" % (key.split("::")[1], len(pairs), "complete" if pairs == full else "INCOMPLETE"))
         if pairs != full:
             chk.violation("A-index", key, "index-set", "visits %s, expected every (i,j) with 0<=j<=i<n; missing %s extra %s" % (sorted(pairs), sorted(full - pairs), sorted(pairs - full)), file=FF, line=fn.lineno)
-    chk.require_count("A-frac", 7)
-    chk.require_count("A-index", 3)
+    chk.require_count("A-frac", 3)
+    chk.require_count("A-index", 1)
 
 
 def index_set(fn, n=4):
